@@ -1,25 +1,119 @@
 package main
 
 // The registry: which functions, unwinding families, table lemmas and bounded stand-ins decide
-// each property (DESIGN.md §4).
+// each property (DESIGN.md §4). Obligation classes: [P] contract proofs (Funcs), [C] complete
+// unwinding per finite configuration (Unwind), [T] table lemmas (Tables), [B] bounded stand-ins
+// (Harness; never counted as discharged obligations).
+
+const (
+	asmBitlist  = "BitList methods are used through their contracts (C18); representation invariants of package utils are trusted across the package boundary (encapsulation: unexported fields, every function of the package keeps inv)"
+	asmUTF8     = "string range decoding of bytes >= 0x80 is an uninterpreted UTF-8 decoder returning a rune >= 0x80 and consuming 1..4 bytes"
+	asmCoro     = "goroutines are executed as coroutines under one deterministic (lazy producer) schedule; unbuffered SPSC channel FIFO semantics and schedule independence of race-free pipelines are trusted (Go memory model)"
+	asmStages   = "stage functions abstracted by contracts while unwinding (listed in the contract files with `abstract`): their results are fresh symbols, so the layout proof holds for whatever bits they produce; what the bits are is covered by the bounded round-trip stand-in only"
+	asmRS       = "Reed-Solomon validity of the check words (ring identities of GFPoly/ReedSolomonEncoder) is a bounded stand-in (C17), not a discharged obligation"
+	asmPenalty  = "qr calcPenalty is abstracted to `result < MaxUint` (mask choice does not affect validity); its loops are not under contract"
+	baseVerify  = "contract-based deductive verification (VC generation over go/ssa, SMT discharge)"
+	unwindTech  = "contract-based deductive verification: complete unwinding per finite configuration with symbolic data (loop-free VCs over go/ssa), table lemmas, SMT discharge"
+	boundedNote = "BOUNDED stand-in (not a proof): "
+)
+
+var base1D = []string{"utils.New1DCode", "utils.New1DCodeWithColor", "utils.New1DCodeIntCheckSum", "utils.New1DCodeIntCheckSumWithColor",
+	"utils.(*base1DCode).Content", "utils.(*base1DCode).Metadata", "utils.(*base1DCode).ColorModel", "utils.(*base1DCode).ColorScheme",
+	"utils.(*base1DCode).Bounds", "utils.(*base1DCode).At", "utils.(*base1DCodeIntCS).CheckSum"}
+
+var bitlistFuncs = []string{"utils.NewBitList", "utils.(*BitList).Len", "utils.(*BitList).grow", "utils.(*BitList).AddBit",
+	"utils.(*BitList).SetBit", "utils.(*BitList).GetBit", "utils.(*BitList).AddByte", "utils.(*BitList).AddBits", "utils.(*BitList).GetBytes"}
+
+var gfFuncs = []string{"utils.(*GaloisField).AddOrSub", "utils.(*GaloisField).Multiply", "utils.(*GaloisField).Divide", "utils.(*GaloisField).Invers",
+	"utils.lemmaMulComm", "utils.lemmaMulAssoc", "utils.lemmaInverse", "utils.lemmaDivUndoesMul", "utils.lemmaDivIsMulInverse"}
 
 var props = []*PropDef{
 	{
-		ID: "C18",
-		Funcs: []string{
-			"utils.NewBitList", "utils.(*BitList).Len", "utils.(*BitList).grow", "utils.(*BitList).AddBit",
-			"utils.(*BitList).SetBit", "utils.(*BitList).GetBit", "utils.(*BitList).AddByte", "utils.(*BitList).AddBits",
-			"utils.(*BitList).GetBytes",
-		},
-		BV: true,
+		ID:     "C01",
+		Unwind: []*Unwinder{unwQR},
+		Tables: []string{"qr/versionInfos", "qr/charCountBits", "qr/formatInfos", "qr/alignment", "gf/fields"},
 		Harness: []Harness{
-			{Pkg: "utils", File: "c18_bitlist_test.go", Run: "TestVerifC18", Bound: "IterateBytes (goroutine+channel, outside the proof subset) compared with GetBytes and the bool-sequence model for every length 0..4200 and seeded random operation sequences across grow/word/byte boundaries"},
+			{Pkg: "qr", File: "c01_qr_test.go", Run: "^TestVerifC01$", Bound: boundedNote + "full round trip through the independent ISO 18004 reader qrspec.Decode (mode encoders, terminator/padding, block split + interleave, RS validity): all strings of length <= 3 over a 12-symbol alphabet, capacity n-1/n/n+1 of every version x level x mode, sign characters, invalid UTF-8, seeded random contents"},
 		},
-		Assumptions: []string{
-			"bit operators on symbolic operands are uninterpreted functions constrained by axioms; every axiom is re-proved in QF_BV at the operand width on each run (obligations axiom/*)",
-			"IterateBytes (byte channel view) is only covered by the bounded stand-in, not by a discharged obligation",
+		Assumptions: []string{asmBitlist, asmCoro, asmPenalty, asmRS,
+			"mode encoders (encodeNumeric/AlphaNumeric/Unicode/Auto), addPaddingAndTerminator, splitToBlocks and interleave are NOT under contract yet: the decode-back clause rests on the bounded stand-in"},
+		Note: "[C] qr.render unwound for (version, level) configurations (quick: 7 versions, thorough: all 40 x 4) with symbolic codewords: the two producer goroutines of iterateModules run as coroutines; each of the 8 masked candidates equals the independent ISO layout (finder, separator, timing, alignment, dark module, format/version BCH words, zig-zag data placement, mask) module by module. [T] 160-row block table, char-count widths, 32 format words, 34 version words, 40 alignment lists, GF(256)/0x11D tables against ISO.",
+	},
+	{
+		ID:     "C02",
+		Unwind: []*Unwinder{unwDM},
+		Tables: []string{"dm/codeSizes", "gf/fields"},
+		Harness: []Harness{
+			{Pkg: "datamatrix", File: "c02_dm_test.go", Run: "^TestVerifC02$", Bound: boundedNote + "full round trip through the independent ISO 16022 reader dmspec.Decode (ASCII encodation, 253-state padding, RS validity): every codeword count 0..1561, capacity +-2 of all 24 sizes, all strings of length <= 4 over 9 bytes, seeded random contents"},
 		},
-		Note: "Every BitList method is verified against the ghost bool-sequence model `model` with representation invariant inv(bl); the all-operation-sequences quantifier is the invariant (each method preserves inv and transforms model as the sequence semantics says).",
+		Assumptions: []string{asmBitlist, asmRS, "RS Encode is abstracted to its shape contract while unwinding calcECC", "encodeText/addPadding are NOT under contract yet: the ASCII decode-back clause rests on the bounded stand-in"},
+		Note:        "[C] for all 24 sizes read from the current codeSizes table, with symbolic codewords: datamatrix.render (SetValues incl. the four corner cases and the fixed pattern, Merge with finder/clock tracks) equals the independent Annex F placement + symbol layout module by module; the explicit panic(\"Field already occupied\") is unreachable; calcECC hands block b exactly data[b], data[b+n], ... to the Reed-Solomon encoder (GF(256)/301, first root alpha^1, [T]) and stores the check words at the ISO interleaved positions without touching the caller's slice.",
+	},
+	{
+		ID:     "C03",
+		Unwind: []*Unwinder{unwAztec},
+		Tables: []string{"aztec/tables", "gf/fields"},
+		Harness: []Harness{
+			{Pkg: "aztec", File: "c03_aztec_test.go", Run: "^TestVerifC03$", Bound: boundedNote + "full round trip through the independent ISO 24778 reader aztecspec.Decode (high-level encoder, stuffing, layer selection, check words, mode message): all 36 explicit sizes and automatic sizing, 13 alphabets, binary-shift boundaries 31/32/62/63/2078/2079, capacity +-2 per format, seeded random contents; empty payload excluded (known finding)"},
+		},
+		Assumptions: []string{asmBitlist, asmStages, asmRS},
+		Note:        "[C] for all 36 explicit sizes: the drawing part of EncodeWithColor (data spiral through alignmentMap, mode message ring, bullseye, orientation marks, reference grid) equals the independent ISO layout module by module for symbolic message/mode bits; word size and total bits per size are the ISO values; explicit layer request honoured. [T] latch/shift/character tables decode (under the spec decoder) to what they claim; word_size and totalBitsInLayer against ISO.",
+	},
+	{
+		ID:     "C04",
+		Unwind: []*Unwinder{unwPDF},
+		Tables: []string{"pdf417/tables", "pdf417/textmaps"},
+		Harness: []Harness{
+			{Pkg: "pdf417", File: "c04_pdf_test.go", Run: "^TestVerifC04$", Bound: boundedNote + "full round trip through the independent ISO 15438 reader pdfspec.Decode (text/byte/numeric compaction with all latches and shifts, RS over GF(929)): punctuation-pad family, all strings of length <= 4 over 8 symbols, digit/byte run boundaries, capacity limits, seeded random contents"},
+		},
+		Assumptions: []string{asmBitlist, asmStages, "PDF417 codeword pattern VALUES are trusted up to structure (17 modules, 4 bars/4 spaces, cluster number, distinct within cluster): the 2787-entry ISO listing cannot be reproduced offline", "RS validity over GF(929): generator coefficients are checked [T]; securitylevel.Compute itself is bounded"},
+		Note:        "[C] EncodeWithColor unwound for (data codeword count, level) configurations (quick: ~120, thorough: every n for every level) with symbolic codewords: acceptance iff the codewords fit the library's 30x30 limit, dimension limits, padding < one row, length descriptor, pad codewords 900, 2^(level+1) check words, left/right row indicators per ISO 15438 (independent formulas), cluster 3*(row mod 3) patterns, start/stop, 17/18 modules, width. [T] correctionFactors = coefficients of prod(x-3^i) mod 929; pattern table structure; text sub-mode tables.",
+	},
+	{
+		ID:     "C05",
+		Level:  "other",
+		Funcs:  base1D,
+		Tables: []string{"code128/tables"},
+		Harness: []Harness{
+			{Pkg: "code128", File: "c05_code128_test.go", Run: "^TestVerifC05$", Bound: boundedNote + "round trip through the independent ISO 15417 decoder onedspec.C128Decode: lengths 1..80 over ASCII 0..127 + FNC1-4, every digit-run length with prefixes/suffixes, A/B/C switch mixtures, with and without checksum"},
+		},
+		Assumptions: []string{asmBitlist, "getCodeIndexList/shouldUseCTable/shouldUseATable and the assembly loops of EncodeWithColor are NOT under contract yet: the decode-back and check-character clauses rest on the bounded stand-in"},
+		Note:        "[T] all 107 patterns equal the ISO table, A/B code set tables and the symbol constants are right; [P] the image type (base1DCode) renders exactly the bit list it is given. Code-set selection and check character: bounded.",
+	},
+	{
+		ID:     "C06",
+		Funcs:  append([]string{"utils.RuneToInt", "utils.IntToRune"}, base1D...),
+		Unwind: []*Unwinder{unwEAN},
+		Tables: []string{"ean/tables"},
+		Harness: []Harness{
+			{Pkg: "ean", File: "c06_ean_test.go", Run: "^TestVerifC06$", Bound: "replay search / cross-check with the independent decoder onedspec.EANDecode (the proof itself is complete: all strings of length 7, 8, 12, 13 symbolically, every other length rejected)"},
+		},
+		Assumptions: []string{asmUTF8, asmBitlist},
+		Note:        "Complete unwinding [C]: for each length 7/8/12/13 and each position of the first non-ASCII byte the real ean.EncodeWithColor (with calcCheckNum, encodeEAN8/13, New1DCode... inlined) runs on symbolic bytes; acceptance, Content, kind, colour, CheckSum and all 67/95 modules are compared with the GS1 symbol built from the standard's L/G/R/parity tables. Other lengths: rejected (symbolic length).",
+	},
+	{
+		ID:     "C07",
+		Level:  "other",
+		Funcs:  base1D,
+		Tables: []string{"code39/tables", "code93/tables"},
+		Harness: []Harness{
+			{Pkg: "code39", File: "c07_code39_test.go", Run: "^TestVerifC07Code39$", Bound: boundedNote + "round trip through onedspec.C39Decode/C39CheckChar/C39FullASCIIDecode in all four option combinations over all 128 ASCII characters"},
+			{Pkg: "code93", File: "c07_code93_test.go", Run: "^TestVerifC07Code93$", Bound: boundedNote + "round trip through onedspec.C93Decode/C93Checks/C93FullASCIIDecode in all four option combinations (includeChecksum=false: check character C still emitted - known finding, accepted when C is correct)"},
+		},
+		Assumptions: []string{asmBitlist, "prepare/getChecksum/EncodeWithColor of both packages are NOT under contract yet (string building and map iteration): decode-back rests on the bounded stand-in"},
+		Note:        "[T] both character tables (patterns, check values a bijection) and both full-ASCII tables (every entry decodes to its index under the standard's table) are right; [P] the image type renders the bit list. Assembly and check characters: bounded.",
+	},
+	{
+		ID:     "C08",
+		Level:  "other",
+		Funcs:  base1D,
+		Tables: []string{"codabar/tables", "twooffive/tables"},
+		Harness: []Harness{
+			{Pkg: "codabar", File: "c08_codabar_test.go", Run: "^TestVerifC08Codabar$", Bound: boundedNote + "acceptance = [ABCD][0-9-$:/.+]*[ABCD] and round trip through onedspec.CodabarDecode (the regexp engine is outside the proof subset)"},
+			{Pkg: "twooffive", File: "c08_twooffive_test.go", Run: "^TestVerifC08TwoOfFive$", Bound: boundedNote + "both variants through onedspec.TwoOfFiveDecodeLenient, AddCheckSum against the 3-1 weighted sum"},
+		},
+		Assumptions: []string{asmBitlist, "regexp behaviour for the single Codabar pattern and the 2 of 5 assembly loops are NOT under contract: bounded stand-in"},
+		Note:        "[T] Codabar patterns, 2 of 5 digit patterns, start/stop patterns and widths against the standards; [P] image type. Assembly, validation and AddCheckSum: bounded.",
 	},
 	{
 		ID: "C09",
@@ -31,42 +125,116 @@ var props = []*PropDef{
 			"barcode.lemmaDivMul", "barcode.lemmaBlock2D", "barcode.lemmaFill2D", "barcode.lemmaBlock1D", "barcode.lemmaFill1D",
 		},
 		Harness: []Harness{
-			{Pkg: ".", File: "c09_scale_test.go", Run: "TestVerifC09", Bound: "validation of assumption FL and of the interface contract on concrete fake barcodes: sources 1..40 modules, targets up to 5x incl. all residues, re-scaling of scaled results"},
+			{Pkg: ".", File: "c09_scale_test.go", Run: "^TestVerifC09$", Bound: "validation of assumption FL and of the interface contract on concrete fake barcodes: sources 1..40 modules, targets up to 5x incl. all residues, re-scaling of scaled results"},
 		},
 		Assumptions: []string{
 			"FL: float64 arithmetic in scale*DCode is modelled by exact rationals and int(min(a/b, c/d)) == min(a div b, c div d); holds for operands < 2^52 (conversions exact, quotient error < 1/(2b)); the contracts restrict widths/heights to <= 2^30; validated boundedly by the harness",
-			"interface contract: Bounds/At/Metadata/Content/ColorModel/CheckSum/ColorScheme of the source barcode are pure total functions (true of every library type: their contracts modify nothing; assumed for caller-supplied types)",
+			"interface contract: Bounds/At/Metadata/Content/ColorModel/CheckSum/ColorScheme of the source barcode are pure total functions (true of every library type; assumed for caller-supplied types)",
 			"source bounds satisfy Min < Max within +-2^30 (every library barcode has at least one module)",
 		},
 		Note: "Scale/ScaleWithFill/scale1DCode/scale2DCode, the two pixel closures, newScaledBC and every scaledBarcode accessor are verified against contracts; ghost lemma functions (zz_lemmas_verif.go, build tag verif) compose them into the statement: block grid of f x f copies, f maximal, centred within one pixel, fill elsewhere, pass-through accessors.",
 	},
 	{
-		ID: "C06",
-		Funcs: []string{"utils.RuneToInt", "utils.IntToRune", "utils.New1DCodeIntCheckSumWithColor",
-			"utils.(*base1DCode).Content", "utils.(*base1DCode).Metadata", "utils.(*base1DCode).Bounds", "utils.(*base1DCode).At", "utils.(*base1DCodeIntCS).CheckSum"},
-		Unwind: []*Unwinder{unwEAN},
-		Tables: []string{"ean/tables"},
+		ID:     "C10",
+		Level:  "other",
+		Unwind: []*Unwinder{unwEAN, unwPDF, unwAztec, unwDM},
+		Funcs:  append(append([]string{}, bitlistFuncs...), "utils.(*GaloisField).Multiply", "utils.(*GaloisField).Divide", "utils.(*GaloisField).Invers"),
 		Harness: []Harness{
-			{Pkg: "ean", File: "c06_ean_test.go", Run: "TestVerifC06", Bound: "replay search / cross-check with the independent reference decoder onedspec.EANDecode on random and boundary inputs (the proof itself is complete: all strings of length 7, 8, 12, 13 symbolically, every other length rejected)"},
+			{Pkg: "qr", File: "c01_qr_test.go", Run: "^TestVerifC10QR$", Bound: boundedNote + "no panic, result xor error, accept iff expressible in the mode and within version-40 capacity"},
+			{Pkg: "datamatrix", File: "c02_dm_test.go", Run: "^TestVerifC10DM$", Bound: boundedNote + "accept iff <= 1558 ASCII-encodation codewords"},
+			{Pkg: "aztec", File: "c03_aztec_test.go", Run: "^TestVerifC10Aztec$", Bound: boundedNote + "illegal layers refused, fitting content accepted, percentages <= 1000"},
+			{Pkg: "pdf417", File: "c04_pdf_test.go", Run: "^TestVerifC10PDF$", Bound: boundedNote + "levels >= 9 refused, capacity limits"},
+			{Pkg: "code128", File: "c05_code128_test.go", Run: "^TestVerifC10Code128$", Bound: boundedNote + "1..80 runes of ASCII + FNC accepted, everything else refused"},
+			{Pkg: "code39", File: "c07_code39_test.go", Run: "^TestVerifC10Code39$", Bound: boundedNote},
+			{Pkg: "code93", File: "c07_code93_test.go", Run: "^TestVerifC10Code93$", Bound: boundedNote},
+			{Pkg: "codabar", File: "c08_codabar_test.go", Run: "^TestVerifC10Codabar$", Bound: boundedNote},
+			{Pkg: "twooffive", File: "c08_twooffive_test.go", Run: "^TestVerifC10TwoOfFive$", Bound: boundedNote},
 		},
-		Assumptions: []string{
-			"string range decoding of bytes >= 0x80 is an uninterpreted UTF-8 decoder that returns a rune >= 0x80 and consumes 1..4 bytes (Go's decoder returns RuneError=0xFFFD or a rune >= 0x80 for such lead bytes)",
-			"BitList methods are used through their contracts (C18); representation invariants of package utils are trusted across the package boundary (encapsulation: unexported fields)",
-		},
-		Note: "Complete unwinding [C]: for each length 7/8/12/13 and each position of the first non-ASCII byte the real ean.EncodeWithColor (with calcCheckNum, encodeEAN8/13, New1DCode... inlined) runs on symbolic bytes; acceptance, Content, kind, colour, CheckSum and all 67/95 modules are compared with the GS1 symbol built from the standard's L/G/R/parity tables. Other lengths: rejected (symbolic length).",
+		Assumptions: []string{asmBitlist, asmStages, asmUTF8, "the zero-annotation no-panic sweep (bounds, nil, division, slice, conversion, explicit panic obligations) is discharged for the functions executed by the unwinding families (EAN completely; PDF417, Aztec drawing, DataMatrix render/ECC per configuration) and for the utils functions under contract; the string-processing front ends of the other symbologies are covered by the bounded stand-ins only"},
+		Note:        "Safety obligations (index, slice, nil, division by zero, conversion, explicit panic, overflow) generated for every instruction executed by the [C] families and the [P] functions are all discharged; exact acceptance is proved for EAN (all inputs) and PDF417 (by codeword count), bounded elsewhere.",
 	},
 	{
-		ID: "C17",
-		Funcs: []string{"utils.(*GaloisField).AddOrSub", "utils.(*GaloisField).Multiply", "utils.(*GaloisField).Divide", "utils.(*GaloisField).Invers",
-			"utils.lemmaMulComm", "utils.lemmaMulAssoc", "utils.lemmaInverse", "utils.lemmaDivUndoesMul", "utils.lemmaDivIsMulInverse"},
+		ID:     "C11",
+		Funcs:  base1D,
+		Unwind: []*Unwinder{unwEAN, unwAztec, unwDM, unwPDF, unwQR},
+		Harness: []Harness{
+			{Pkg: "codabar", File: "c11_render_test.go", Run: "^TestVerifC11$", Bound: boundedNote + "every Encode/EncodeWithColor entry point x 5 colour schemes: bounds, pixel colours by value, ColorModel/ColorScheme, pattern independent of the scheme, Metadata, Content"},
+		},
+		Assumptions: []string{asmBitlist, "the 2-D image types' getters (Bounds/At/ColorModel/...) are not under contract yet; the unwinding families establish the fields (size, colour scheme, bit model) they read"},
+		Note:        "[P] the 1-D image types: constructors store exactly kind/content/bars/scheme (black on white for the plain constructors), getters return them, At(x,y) is Foreground iff bit x. [C] the unwinding families show that the result objects of EAN, PDF417, Aztec, DataMatrix and QR carry the caller's colour scheme, the prescribed size and the scheme-independent module pattern.",
+	},
+	{
+		ID:     "C12",
+		Unwind: []*Unwinder{unwPDF, unwDM, unwQR},
+		Tables: []string{"qr/versionInfos", "qr/formatInfos", "dm/codeSizes", "pdf417/tables"},
+		Harness: []Harness{
+			{Pkg: "qr", File: "c01_qr_test.go", Run: "^TestVerifC12QR$", Bound: boundedNote + "decoded level == requested, every block has the ISO number of check words"},
+			{Pkg: "aztec", File: "c03_aztec_test.go", Run: "^TestVerifC12Aztec$", Bound: boundedNote + "check bits x 100 >= pct x data bits on decoded symbols"},
+			{Pkg: "pdf417", File: "c04_pdf_test.go", Run: "^TestVerifC12PDF$", Bound: boundedNote + "decoded level == requested"},
+			{Pkg: "datamatrix", File: "c02_dm_test.go", Run: "^TestVerifC12DM$", Bound: boundedNote},
+		},
+		Assumptions: []string{asmRS, "Aztec percentage arithmetic (eccBits) is not under contract yet: bounded stand-in"},
+		Note:        "QR: [C] drawFormatInfo writes the BCH word of the row's level ([T] formatInfos) into both copies, [T] block table = ISO check-word counts. PDF417: [C] indicators carry 3*level + (rows-1) mod 3 per ISO, Compute is asked for and the symbol holds 2^(level+1) check words. DataMatrix: [C]+[T] ECC 200 counts per size. Aztec: bounded.",
+	},
+	{
+		ID:     "C13",
+		Level:  "other",
+		Unwind: []*Unwinder{unwPDF},
+		Tables: []string{"qr/versionInfos", "dm/codeSizes"},
+		Harness: []Harness{
+			{Pkg: "qr", File: "c01_qr_test.go", Run: "^TestVerifC13QR$", Bound: boundedNote + "chosen version == smallest fitting version at every capacity boundary"},
+			{Pkg: "datamatrix", File: "c02_dm_test.go", Run: "^TestVerifC13DM$", Bound: boundedNote + "smallest size at every capacity boundary"},
+			{Pkg: "aztec", File: "c03_aztec_test.go", Run: "^TestVerifC13Aztec$", Bound: boundedNote + "every smaller explicit size is refused"},
+			{Pkg: "pdf417", File: "c04_pdf_test.go", Run: "^TestVerifC13PDF$", Bound: boundedNote},
+		},
+		Assumptions: []string{"the search loops of qr.findSmallestVersionInfo, datamatrix.EncodeWithColor and aztec.EncodeWithColor are not under contract yet: bounded stand-in at every capacity boundary"},
+		Note:        "PDF417: [C] for every unwound (n, level): padding < one row and 2..30 rows/columns. QR/DataMatrix: [T] tables ordered with strictly increasing capacity (so first fit = smallest); the first-fit loops themselves and Aztec minimality: bounded.",
+	},
+	{
+		ID:     "C14",
+		Funcs:  append([]string{"barcode.(*intCSscaledBC).CheckSum", "barcode.newScaledBC"}, base1D...),
+		Unwind: []*Unwinder{unwEAN},
+		Harness: []Harness{
+			{Pkg: "code128", File: "c05_code128_test.go", Run: "^TestVerifC14Code128$", Bound: boundedNote + "CheckSum() == mod-103 value == drawn check symbol, unchanged by Scale"},
+			{Pkg: "code39", File: "c07_code39_test.go", Run: "^TestVerifC14Code39$", Bound: boundedNote + "CheckSum() == mod-43 value in all four configurations, unchanged by Scale"},
+			{Pkg: "ean", File: "c06_ean_test.go", Run: "^TestVerifC14EAN$", Bound: "cross-check of the complete EAN proof"},
+		},
+		Assumptions: []string{"Code 128 and Code 39 checksum computations are not under contract yet: bounded stand-in"},
+		Note:        "EAN: [C] CheckSum() equals the GS1 check digit on every success path of every length (complete). Storage and forwarding: [P] base1DCodeIntCS.CheckSum returns the stored value, newScaledBC wraps iff the source has a checksum and intCSscaledBC.CheckSum forwards it. Code 128 / Code 39 values: bounded.",
+	},
+	{
+		ID:     "C15",
+		Level:  "other",
+		Unwind: []*Unwinder{unwDM},
+		Funcs:  []string{"utils.NewBitList", "utils.(*BitList).GetBytes"},
+		Harness: []Harness{
+			{Pkg: "ean", File: "c15_pure_test.go", Run: "^TestVerifC15$", Bound: boundedNote + "same arguments encoded repeatedly between other encodes of varying RS degree and in fresh processes give identical pixels and accessors; inputs unmodified; result is a snapshot"},
+		},
+		Assumptions: []string{"frame conditions (modifies nothing pre-existing) are discharged only for the functions under contract and the unwound families; cache neutrality of getPolynomial and map-order independence of getChecksum are bounded"},
+		Note:        "frame obligations: every store executed by the functions under contract / unwound families targets an object allocated during the call or a location of the modifies clause (e.g. calcECC does not write the caller's slice [C]); determinism across histories and processes: bounded.",
+	},
+	{
+		ID:     "C17",
+		Funcs:  gfFuncs,
 		Tables: []string{"gf/fields"},
 		Harness: []Harness{
-			{Pkg: "utils", File: "c17_gf_test.go", Run: "TestVerifC17", Bound: "BOUNDED stand-in for the ring identities (dividend == q*d + r; Encode makes data||check vanish at alpha^(Base+i)): exhaustive for small degrees over GF(16), seeded random polynomials / data / request orders over all 7 fields, against independent carry-less arithmetic"},
+			{Pkg: "utils", File: "c17_gf_test.go", Run: "^TestVerifC17$", Bound: boundedNote + "ring identities (dividend == q*d + r; Encode makes data||check vanish at alpha^(Base+i)): exhaustive for small degrees over GF(16), seeded random polynomials / data / request orders over all 7 fields, against independent carry-less arithmetic"},
+		},
+		Assumptions: []string{"polynomial division identity and Reed-Solomon syndrome-vanishing are NOT proved (needs ring-theory induction over convolution sums); bounded stand-in only"},
+		Note:        "Field tables of the 7 constructed fields are checked exhaustively against carry-less arithmetic modulo the standards' primitive polynomials [T]; commutativity, associativity, inverses and division for ALL operands follow from the table lemmas as discharged obligations (ghost lemma functions, split over the five field sizes).",
+	},
+	{
+		ID:    "C18",
+		Funcs: bitlistFuncs,
+		BV:    true,
+		Harness: []Harness{
+			{Pkg: "utils", File: "c18_bitlist_test.go", Run: "^TestVerifC18$", Bound: "IterateBytes (goroutine+channel, outside the proof subset) compared with GetBytes and the bool-sequence model for every length 0..4200 and seeded random operation sequences across grow/word/byte boundaries"},
 		},
 		Assumptions: []string{
-			"polynomial division identity and Reed-Solomon syndrome-vanishing are NOT proved (needs ring-theory induction over convolution sums); they are covered by the bounded stand-in only",
+			"bit operators on symbolic operands are uninterpreted functions constrained by axioms; every axiom is re-proved in QF_BV at the operand width on each run (obligations axiom/*)",
+			"IterateBytes (byte channel view) is only covered by the bounded stand-in, not by a discharged obligation",
 		},
-		Note: "Field tables of the 7 constructed fields are checked exhaustively against carry-less arithmetic modulo the standards' primitive polynomials [T]; commutativity, associativity, inverses and division for ALL operands follow from the table lemmas as discharged obligations (ghost lemma functions, split over the five field sizes).",
+		Note: "Every BitList method is verified against the ghost bool-sequence model `model` with representation invariant inv(bl); the all-operation-sequences quantifier is the invariant (each method preserves inv and transforms model as the sequence semantics says).",
 	},
 }
 
